@@ -131,67 +131,50 @@ Proof. vm_compute. auto. Qed.
 
 (* ---------------- (4) a matured "payment" is a payment: never negative ---------------- *)
 
-(* partial: outside the triggers C12.negative_undelegate and C12.negative_reward_withdrawal, from a
-   genesis whose pending entries are non-negative, every amount credited by the maturation routines
-   is non-negative — BeginBlock never takes money from a delegator *)
-Theorem C12_matured_payments_nonneg_partial : forall astr k b pl ac pe rw rp ops,
+(* FULL (no trigger guard since /repo 1d1d85c): from a genesis whose pending entries are non-negative,
+   every amount credited by the maturation routines is non-negative — BeginBlock never takes money
+   from a delegator *)
+Theorem C12_matured_payments_nonneg : forall astr k b pl ac pe rw rp ops,
   (1 <= k)%N ->
   (forall n a, 0 <= pget pe n a) -> (forall n a, 0 <= pget rp n a) ->
-  trig_neg_undelegate ops = false -> trig_neg_withdraw ops = false ->
   let s := run astr (genesis k b pl ac pe rw rp) ops in
   forall n a, (1 <= n)%N -> 0 <= paid s n a /\ 0 <= rpaid s n a.
-Proof. exact payments_nonneg_partial. Qed.
-Print Assumptions C12_matured_payments_nonneg_partial.
+Proof. exact payments_nonneg. Qed.
+Print Assumptions C12_matured_payments_nonneg.
 
-(* the full statement is false of the faithful model.  NETWORK_UNDELEGATE with a negative amount
-   (Undelegate.Validate and runUndelegate check no sign; Coin.Minus fails only on a negative RESULT):
-   the active delegation and the pool GROW at once without any payment, and at maturity the
-   delegator is debited by AddToAddress of a negative coin, which has no balance check — his balance
-   goes negative.  Known finding C12.negative_undelegate. *)
-Theorem C12_matured_payments_nonneg_refuted_negative_undelegate : exists astr s0 ops,
-  trig_neg_undelegate ops = true /\ trig_neg_withdraw ops = false /\
-  let s := run astr s0 ops in
-  results astr s0 ops = [true; true; true; true; true; true] /\
-  aget (active s) 0%N = 2000 /\ pool s = 2000 /\ paid s 5%N 0%N = -2000 /\ bal s 0%N = -1001.
-Proof.
-  exists astr_ex, g_ex1, [Begin []; Undelegate 0%N (-2000) 1; Begin []; Begin []; Begin []; Begin []].
-  vm_compute. repeat split; reflexivity.
-Qed.
+(* the former witnesses of the findings C12.negative_undelegate and C12.negative_reward_withdrawal
+   (fixed by 1d1d85c) are harmless now: the transaction is refused, nothing changes *)
+Example C12_former_witness_negative_undelegate_harmless :
+  let ops := [Begin []; Undelegate 0%N (-2000) 1; Begin []; Begin []; Begin []; Begin []] in
+  let s := run astr_ex g_ex1 ops in
+  trig_neg_undelegate ops = true /\
+  results astr_ex g_ex1 ops = [true; false; true; true; true; true] /\
+  aget (active s) 0%N = 0 /\ pool s = 0 /\ paid s 5%N 0%N = 0 /\ bal s 0%N = 1000.
+Proof. vm_compute. repeat split; reflexivity. Qed.
 
-(* the same with REWARDS_WITHDRAW_NETWORK_DELEGATE: the reward balance grows at once, the delegator
-   is debited at maturity.  Known finding C12.negative_reward_withdrawal. *)
-Theorem C12_matured_payments_nonneg_refuted_negative_withdrawal : exists astr s0 ops,
-  trig_neg_undelegate ops = false /\ trig_neg_withdraw ops = true /\
-  let s := run astr s0 ops in
-  rew s 0%N = 2000 /\ rpaid s 5%N 0%N = -2000 /\ bal s 0%N = -1001.
-Proof.
-  exists astr_ex, g_ex1, [Begin []; WithdrawRw 0%N (-2000) 1; Begin []; Begin []; Begin []; Begin []].
-  vm_compute. repeat split; reflexivity.
-Qed.
+Example C12_former_witness_negative_withdrawal_harmless :
+  let ops := [Begin []; WithdrawRw 0%N (-2000) 1; Begin []; Begin []; Begin []; Begin []] in
+  let s := run astr_ex g_ex1 ops in
+  trig_neg_withdraw ops = true /\
+  results astr_ex g_ex1 ops = [true; false; true; true; true; true] /\
+  rew s 0%N = 0 /\ rpaid s 5%N 0%N = 0 /\ bal s 0%N = 1000.
+Proof. vm_compute. repeat split; reflexivity. Qed.
 
 (* ---------------- (4') active delegations are never negative ---------------- *)
 
-(* partial: outside the trigger C12.negative_reinvest; without it "pool >= sum of active" would not
-   mean that the pool covers every delegator's delegation *)
-Theorem C12_active_nonneg_partial : forall astr ops s,
-  trig_neg_reinvest ops = false -> (forall x, 0 <= aget (active s) x) ->
-  forall x, 0 <= aget (active (run astr s ops)) x.
-Proof. exact active_nonneg_partial. Qed.
-Print Assumptions C12_active_nonneg_partial.
+(* FULL: so "pool >= sum of active" means that the pool covers every delegator's delegation *)
+Theorem C12_active_nonneg : forall astr ops s,
+  (forall x, 0 <= aget (active s) x) -> forall x, 0 <= aget (active (run astr s ops)) x.
+Proof. exact active_nonneg. Qed.
+Print Assumptions C12_active_nonneg.
 
-(* refuted: REWARDS_REINVEST_NETWORK_DELEGATE with a negative amount (no sign check in Validate or
-   the handler): d1, who has delegated nothing, obtains a reward balance of 4 out of nothing, his
-   active delegation becomes -4 and the pool loses 4 of d0's money: pool 6 < d0's delegation 10.
-   Known finding C12.negative_reinvest. *)
-Theorem C12_active_nonneg_refuted_negative_reinvest : exists astr s0 ops,
-  trig_neg_reinvest ops = true /\ (forall x, 0 <= aget (active s0) x) /\
-  let s := run astr s0 ops in
-  aget (active s) 1%N = -4 /\ rew s 1%N = 4 /\ pool s = 6 /\ aget (active s) 0%N = 10.
-Proof.
-  exists astr_ex, g_ex1, [Begin []; Delegate 0%N 10 1; Reinvest 1%N (-4) 1].
-  split; [vm_compute; reflexivity|]. split; [intros x; vm_compute; discriminate|].
-  vm_compute. repeat split; reflexivity.
-Qed.
+(* the former witness of finding C12.negative_reinvest (fixed by 1d1d85c): refused, harmless *)
+Example C12_former_witness_negative_reinvest_harmless :
+  let ops := [Begin []; Delegate 0%N 10 1; Reinvest 1%N (-4) 1] in
+  let s := run astr_ex g_ex1 ops in
+  trig_neg_reinvest ops = true /\ results astr_ex g_ex1 ops = [true; true; false] /\
+  aget (active s) 1%N = 0 /\ rew s 1%N = 0 /\ pool s = 10 /\ aget (active s) 0%N = 10.
+Proof. vm_compute. repeat split; reflexivity. Qed.
 
 (* ---------------- (5) reward withdrawals never exceed the accrued reward balance ---------------- *)
 
